@@ -1197,7 +1197,7 @@ func runCase(o *out.Out, r *gen.Rand, c int) {
 		}
 		switch r.Pick(10, 9, 2, 1, 1) {
 		case 0:
-			k := pickTimes(r, !bigUsed && (c%50 == 3 || *out.Tier == "thorough" && c%8 == 3))
+			k := pickTimes(r, !bigUsed && c%50 == 3)
 			if k > 5 {
 				bigUsed = true
 			}
